@@ -3209,3 +3209,185 @@ def gen_classdecor(lib_dir: str, header: str) -> str:
             "    classes first: `typing.get_type_hints`) -/\n")
     out += "def dcDecorate (scripting enabled isDataclass : Bool) (fields : List (Name × Hint)) : ClassDecorated :=\n" + dc + "\nend Dltype.Gen\n"
     return out
+
+
+# =====================================================================================================================
+# _resolve_types / _resolve_value (+ the head of DLTypeContext.add and its zip over a Python value)  ->  Generated/Resolve.lean
+# =====================================================================================================================
+#
+# A small expression compiler for the comprehension-style one-liners of the two helpers:
+#   x is None / x is not None            -> x.isNone / x.isSome            (x an Option-typed variable)
+#   all(E for v in L) / any(...)         -> L.all (fun v => E) / L.any …
+#   tuple(E for v in L), [E for v in L]  -> L.map (fun v => E)
+#   A if v is not None else B            -> match v with | some v => A | none => B   (v is bound to the payload in A)
+#   v.dltype_annotation                  -> v.dltypeAnnotation  (the model keeps only that field of a DLTypeAnnotation)
+#   None (as a produced element)         -> none ;  a produced non-None element -> some …
+#   isinstance(type_hint, _TupleHint)    -> isTupleHint ;  cast("…", value) -> value ;  (value,) -> .tup [value]
+# `if <param> is None or C: return R1` followed by `return R2` becomes a match on the parameter, so that C and R2 see the payload.
+
+RESOLVE_HEADER = """/-- the `dltype_annotation` field of a `DLTypeAnnotation` (the model keeps only that field of the pair) -/
+abbrev _root_.Dltype.Ann.dltypeAnnotation (a : Ann) : Ann := a
+
+"""
+
+RESOLVE_SKELETON = """/-- `DLTypeContext.add(name, values, annotations)` whole (fixed text around the regenerated loop `Gen.addGo`): the head
+    `if dltype_annotation_tup is None: return`, then `zip(annotations, values, strict=True)` over a Python value — a tuple is walked,
+    an array would yield sub-arrays (not modelled), anything else is not iterable (TypeError) -/
+def ctxAdd (name : Name) (values : Value) (annotations : Option (List (Option Ann))) : Outcome (List Entry) :=
+  match annotations with
+  | none => .ok []
+  | some as =>
+    match values with
+    | .tup vs => addGo name 0 as vs
+    | .tensor _ => .unmodelled
+    | _ => .pyExc .typeError
+
+/-- `ctx.add(name, _resolve_value(value, hint), _resolve_types(hint))`: the statement of the wrapper and of the two class entry points -/
+def addResolved (name : Name) (value : Value) (hint : HintAnns) : Outcome (List Entry) :=
+  ctxAdd name (resolveValue value hint.isTuple) (resolveTypes (some hint.anns))
+
+"""
+
+
+class ResolveComp:
+    def __init__(self, fn: str):
+        self.fn = fn
+
+    def err(self, e, what="expression"):
+        raise TErr(f"{self.fn}: {what} `{_src(e)[:120]}`")
+
+    def is_none_test(self, e):
+        """(variable, positive?) for `v is None` / `v is not None`"""
+        if (isinstance(e, ast.Compare) and len(e.ops) == 1 and isinstance(e.left, ast.Name) and isinstance(e.comparators[0], ast.Constant)
+                and e.comparators[0].value is None and isinstance(e.ops[0], (ast.Is, ast.IsNot))):
+            return e.left.id, isinstance(e.ops[0], ast.Is)
+        return None
+
+    def gen_of(self, e):
+        """the single generator of a comprehension: (element expression, loop variable, iterated variable)"""
+        if isinstance(e, (ast.GeneratorExp, ast.ListComp)) and len(e.generators) == 1:
+            g = e.generators[0]
+            if not g.ifs and not g.is_async and isinstance(g.target, ast.Name) and isinstance(g.iter, ast.Name):
+                return e.elt, g.target.id, g.iter.id
+        self.err(e, "comprehension")
+
+    def boolean(self, e, opts: set) -> str:
+        t = self.is_none_test(e)
+        if t is not None:
+            v, pos = t
+            if v not in opts:
+                self.err(e, "None test of a variable that cannot be None here")
+            return f"{v}.isNone" if pos else f"{v}.isSome"
+        if isinstance(e, ast.Call) and isinstance(e.func, ast.Name) and e.func.id in ("all", "any") and len(e.args) == 1 and not e.keywords:
+            elt, v, it = self.gen_of(e.args[0])
+            return f"{it}.{e.func.id} (fun {v} => {self.boolean(elt, opts | {v})})"
+        if isinstance(e, ast.UnaryOp) and isinstance(e.op, ast.Not):
+            return f"(!{self.boolean(e.operand, opts)})"
+        if isinstance(e, ast.BoolOp):
+            return "(" + (" && " if isinstance(e.op, ast.And) else " || ").join(self.boolean(v, opts) for v in e.values) + ")"
+        self.err(e, "condition")
+
+    def element(self, e, opts: set, bound: set) -> str:
+        """an element of the produced tuple: an `Option Ann`"""
+        if isinstance(e, ast.Constant) and e.value is None:
+            return "none"
+        if isinstance(e, ast.IfExp):
+            t = self.is_none_test(e.test)
+            if t is None or t[0] not in opts:
+                self.err(e.test, "condition of a conditional expression")
+            v, pos = t
+            some_b, none_b = (e.orelse, e.body) if pos else (e.body, e.orelse)
+            return (f"(match {v} with | some {v} => {self.element(some_b, opts - {v}, bound | {v})} | none => {self.element(none_b, opts - {v}, bound)})")
+        if isinstance(e, ast.Attribute) and isinstance(e.value, ast.Name) and e.attr == "dltype_annotation":
+            if e.value.id not in bound:
+                self.err(e, "attribute of a value that may be None")
+            return f"some {e.value.id}.dltypeAnnotation"
+        if isinstance(e, ast.Name) and e.id in opts:
+            return e.id
+        self.err(e, "tuple element")
+
+    def produced(self, e, opts: set) -> str:
+        """what `_resolve_types` returns: `Option (List (Option Ann))`"""
+        if isinstance(e, ast.Constant) and e.value is None:
+            return "none"
+        if isinstance(e, ast.Call) and isinstance(e.func, ast.Name) and e.func.id == "tuple" and len(e.args) == 1 and not e.keywords:
+            elt, v, it = self.gen_of(e.args[0])
+            if it in opts:
+                self.err(e, "iteration over a value that may be None")
+            return f"some ({it}.map (fun {v} => {self.element(elt, {v}, set())}))"
+        if isinstance(e, ast.Name) and e.id not in opts:
+            return f"some {e.id}"
+        self.err(e, "returned value")
+
+
+def gen_resolve(lib_dir: str, header: str) -> str:
+    with open(os.path.join(lib_dir, "_core.py")) as fh:
+        mod = ast.parse(fh.read(), filename="_core.py")
+    fns = {n.name: n for n in mod.body if isinstance(n, ast.FunctionDef)}
+
+    # _resolve_types ----------------------------------------------------------------------------------------
+    f = fns.get("_resolve_types")
+    if f is None or [a.arg for a in f.args.args] != ["annotations"]:
+        raise TErr("_resolve_types: not found / parameters")
+    if sorted(_src(d) for d in f.decorator_list) not in (["lru_cache()"], []):
+        raise TErr("_resolve_types: decorators " + ", ".join(_src(d) for d in f.decorator_list))
+    rc = ResolveComp("_resolve_types")
+    body = _strip(f.body)
+    p = "annotations"
+    if not (len(body) == 2 and isinstance(body[0], ast.If) and not body[0].orelse and len(body[0].body) == 1 and isinstance(body[0].body[0], ast.Return)
+            and isinstance(body[1], ast.Return)):
+        raise TErr("_resolve_types: expected `if …: return …` followed by `return …`: " + " ; ".join(_src(s)[:80] for s in body))
+    test = body[0].test
+    first = test.values[0] if isinstance(test, ast.BoolOp) and isinstance(test.op, ast.Or) else test
+    if rc.is_none_test(first) != (p, True):
+        raise TErr(f"_resolve_types: the first test is not `{p} is None`: `{_src(test)[:120]}`")
+    rest = test.values[1:] if isinstance(test, ast.BoolOp) and isinstance(test.op, ast.Or) else []
+    r1_none = rc.produced(body[0].body[0].value, {p})
+    r1 = rc.produced(body[0].body[0].value, set())
+    r2 = rc.produced(body[1].value, set())
+    if rest:
+        c = " || ".join(rc.boolean(v, set()) for v in rest)
+        some_branch = f"if {c} then {r1} else {r2}"
+    else:
+        some_branch = r2
+    resolve_types = f"  match {p} with\n  | none => {r1_none}\n  | some {p} => {some_branch}\n"
+
+    # _resolve_value ----------------------------------------------------------------------------------------
+    f = fns.get("_resolve_value")
+    if f is None or [a.arg for a in f.args.args] != ["value", "type_hint"] or f.decorator_list:
+        raise TErr("_resolve_value: not found / parameters / decorated")
+    body = _strip(f.body)
+    if not (len(body) == 1 and isinstance(body[0], ast.Return)):
+        raise TErr("_resolve_value: expected one `return`: " + " ; ".join(_src(s)[:80] for s in body))
+
+    def val(e) -> str:
+        if isinstance(e, ast.Name) and e.id == "value":
+            return "value"
+        if isinstance(e, ast.Call) and _src(e.func) in ("cast", "typing.cast") and len(e.args) == 2:
+            return val(e.args[1])
+        if isinstance(e, ast.Tuple):
+            return ".tup [" + ", ".join(val(x) for x in e.elts) + "]"
+        if isinstance(e, ast.IfExp):
+            return f"(if {cnd(e.test)} then {val(e.body)} else {val(e.orelse)})"
+        raise TErr(f"_resolve_value: expression `{_src(e)[:120]}`")
+
+    def cnd(e) -> str:
+        if _src(e) == "isinstance(type_hint, _TupleHint)":
+            return "isTupleHint"
+        if isinstance(e, ast.UnaryOp) and isinstance(e.op, ast.Not):
+            return f"(!{cnd(e.operand)})"
+        raise TErr(f"_resolve_value: condition `{_src(e)[:120]}`")
+
+    resolve_value = "  " + val(body[0].value) + "\n"
+
+    out = header
+    out += "import DltypeModel.Entry\nimport DltypeModel.Generated.Core\nset_option linter.unusedVariables false\nnamespace Dltype.Gen\nopen Dltype\n\n"
+    out += RESOLVE_HEADER
+    out += "/-- `_resolve_types(annotations)`: `None` when there is nothing to check, else the annotation objects (with `None` kept in place) -/\n"
+    out += "def resolveTypes (annotations : Option (List (Option Ann))) : Option (List (Option Ann)) :=\n" + resolve_types + "\n"
+    out += ("/-- `_resolve_value(value, type_hint)`: the value itself exactly when the hint was a tuple hint (`isTupleHint` = `isinstance(type_hint, _TupleHint)`),\n"
+            "    a one-element tuple otherwise -/\n")
+    out += "def resolveValue (value : Value) (isTupleHint : Bool) : Value :=\n" + resolve_value + "\n"
+    out += RESOLVE_SKELETON
+    out += "end Dltype.Gen\n"
+    return out
